@@ -189,8 +189,11 @@ pub fn leak_scan(out: &RunOut, seed: &[u8]) -> Vec<(String, String, bool)> {
     let nd = needles(seed);
     let mut res = Vec::new();
     let mut scan = |chan: &str, hay: &[u8], res: &mut Vec<(String, String, bool)>| {
+        // hexadecimal is matched without regard to case (a seed written as "A3b0..." leaks as such)
+        let lower: Vec<u8> = hay.to_ascii_lowercase();
         for (enc, n) in &nd {
-            if r::find_sub(hay, n) {
+            let found = if enc.ends_with(":hex") { r::find_sub(&lower, n) } else { r::find_sub(hay, n) };
+            if found {
                 res.push((chan.to_string(), enc.clone(), true));
             }
         }
